@@ -16,7 +16,8 @@ func (p *planner) analyzeScript() {
 		if ppl.LabelFilter != nil {
 			p.simpleLabelOperation[i] = true
 		}
-		if ppl.Parser != nil {
+		// a drop changes the labels too: a filter written after it must see what it left
+		if ppl.Parser != nil || ppl.Drop != nil {
 			break
 		}
 	}
@@ -51,10 +52,27 @@ func (p *planner) analyzeScript() {
 		}
 	}
 
+	// A stage that rewrites the labels column (parser, drop) and a filter share a select only when the
+	// filter is written after it: WHERE resolves `labels` to the rewritten column of the same select.
+	// The select is closed behind a run of parsers and behind a run of drops, and in front of a
+	// rewriting stage that follows a stage of another kind once the labels are joined.
+	relabels := func(ppl logql_parser.StrSelectorPipeline) bool {
+		return ppl.Parser != nil || ppl.Drop != nil
+	}
 	p.renewMainAfter = make([]bool, len(pipeline))
 	for i, ppl := range pipeline {
-		p.renewMainAfter[i] = i < len(pipeline)-1 &&
-			ppl.Parser != nil && pipeline[i+1].Parser == nil
+		if i >= len(pipeline)-1 {
+			continue
+		}
+		next := pipeline[i+1]
+		switch {
+		case ppl.Parser != nil:
+			p.renewMainAfter[i] = next.Parser == nil
+		case ppl.Drop != nil:
+			p.renewMainAfter[i] = next.Drop == nil
+		default:
+			p.renewMainAfter[i] = relabels(next) && p.labelsJoinIdx != -1 && p.labelsJoinIdx <= i
+		}
 	}
 
 	for _, ppl := range pipeline {
